@@ -3,6 +3,7 @@ package genlint
 import (
 	"go/ast"
 	"go/token"
+	"go/types"
 	"strings"
 
 	"cffverif/internal/astx"
@@ -98,19 +99,42 @@ func (c *ctx) walkerCompleteness() {
 				return !found
 			}
 			if isWalk(call) {
+				reportsIn := func(body ast.Node) bool {
+					reports := false
+					ast.Inspect(body, func(k ast.Node) bool {
+						if c2, ok := k.(*ast.CallExpr); ok {
+							if se, ok := c2.Fun.(*ast.SelectorExpr); ok && (se.Sel.Name == "errf" || se.Sel.Name == "Errorf") {
+								reports = true
+							}
+						}
+						return true
+					})
+					return reports
+				}
 				for _, a := range call.Args {
 					if fl, ok := a.(*ast.FuncLit); ok {
-						reports := false
-						ast.Inspect(fl.Body, func(k ast.Node) bool {
-							if c2, ok := k.(*ast.CallExpr); ok {
-								if se, ok := c2.Fun.(*ast.SelectorExpr); ok && (se.Sel.Name == "errf" || se.Sel.Name == "Errorf") {
-									reports = true
+						if reportsIn(fl.Body) {
+							found = true
+						}
+						continue
+					}
+					// a visitor value: the Visit method of its type (declared in the package) reports
+					t := info.TypeOf(a)
+					if t == nil {
+						continue
+					}
+					if p, ok := t.(*types.Pointer); ok {
+						t = p.Elem()
+					}
+					if nt, ok := t.(*types.Named); ok && nt.Obj().Pkg() == c.inter.Types {
+						for i := 0; i < nt.NumMethods(); i++ {
+							if m := nt.Method(i); m.Name() == "Visit" {
+								for _, f2 := range c.files {
+									if d := astx.DeclOfFunc(info, []*ast.File{f2.file}, m); d != nil && d.Body != nil && reportsIn(d.Body) {
+										found = true
+									}
 								}
 							}
-							return true
-						})
-						if reports {
-							found = true
 						}
 					}
 				}
@@ -145,6 +169,32 @@ func (c *ctx) walkerCompleteness() {
 			for _, st := range cc.Body {
 				if scans(st, 0) {
 					return true
+				}
+			}
+			// the scan may follow the switch that tells the directives apart, in the clause of the call, for every
+			// branch that falls out of that switch (a branch that returns does not reach it)
+			for _, st := range cc.Body {
+				if _, ok := st.(*ast.ReturnStmt); ok {
+					return false
+				}
+			}
+			var sw ast.Stmt
+			for x := fc.par[cc]; x != nil && x != ast.Node(walker); x = fc.par[x] {
+				if s, ok := x.(*ast.SwitchStmt); ok && sw == nil {
+					sw = s
+				}
+				if outer, ok := x.(*ast.CaseClause); ok && outer != cc && sw != nil {
+					after := false
+					for _, st := range outer.Body {
+						if st == sw {
+							after = true
+							continue
+						}
+						if after && scans(st, 0) {
+							return true
+						}
+					}
+					break
 				}
 			}
 			return false
